@@ -398,7 +398,8 @@ def build_g3j(c):
 @st.composite
 def g4_auth(draw):
     what = draw(st.sampled_from(["zip-garbage", "zip-truncated", "zip-zlib", "zip-gzip", "zip-empty", "zip-trailing", "claims",
-                                 "zip-zlib-garbage", "zip-zlib-badsum", "zip-zlib-flip", "zip-zlib-truncated"]))
+                                 "zip-zlib-garbage", "zip-zlib-badsum", "zip-zlib-flip", "zip-zlib-truncated",
+                                 "cbc-empty", "cbc-partial-block", "cbc-bad-padding", "cbc-zero-padding", "cbc-all-padding"]))
     data = draw(st.binary(max_size=60))
     claims = draw(st.one_of(st.binary(max_size=30), jsonv.json_value(6).map(lambda v: json.dumps(v).encode()),
                             st.sampled_from([b"[1,2]", b'"s"', b"1", b"null", b"true", b"{", b"\xff\xfe", b"", b"NaN", b"[" * 3000 + b"]" * 3000])))
@@ -410,6 +411,22 @@ def build_g4(c):
     import zlib
     K = fixed_keys()["ref"]
     data = bytes.fromhex(c["data_hex"])
+    if c["what"].startswith("cbc-"):
+        # a ciphertext no honest sender makes, under a tag the holder of the key did compute (RFC 7518 5.2.2.2: the tag is
+        # checked first, the padding afterwards)
+        from Crypto.Cipher import AES
+        enc = ["A128CBC-HS256", "A256CBC-HS512"][len(data) % 2]
+        size = rjwe.ENCS[enc][0]
+        cek = K[f"oct{size}"]["k"]
+        half = size // 2
+        blocks = {"cbc-empty": b"", "cbc-partial-block": None, "cbc-bad-padding": (data + bytes(16))[:15] + bytes([17 + len(data) % 200]),
+                  "cbc-zero-padding": (data + bytes(16))[:15] + b"\x00", "cbc-all-padding": bytes([16]) * 15 + bytes([16 if len(data) % 2 else 15])}[c["what"]]
+        iv = bytes(16)
+        ct = (data + b"x")[:1 + len(data) % 15] if blocks is None else (AES.new(cek[half:], AES.MODE_CBC, iv).encrypt(blocks) if blocks else b"")
+        prot = {"alg": "dir", "enc": enc}
+        pseg = rb.encode(json.dumps(prot, separators=(",", ":")).encode())
+        tag = rjwe._cbc_tag(enc, cek[:half], pseg.encode(), iv, ct)
+        return "jwe", ".".join([pseg, "", rb.encode(iv), rb.encode(ct), rb.encode(tag)]), prot
     if c["what"] == "claims":
         payload = bytes.fromhex(c["claims_hex"])
         if c["transport"] == "jws":
